@@ -75,6 +75,10 @@ type TPara struct {
 	// break-before / break-after: avoid (no layout that kept the container is discarded by a
 	// rewind to an earlier break or by the cancellation of a container around it)
 	AvoidPlain bool
+	// Block + AvoidParent only: the first in-flow paragraph that is a direct child of that
+	// container and precedes the box (-1: none), and all the paragraphs inside the container
+	ContFirst int
+	ContParas []int
 }
 
 const (
@@ -466,7 +470,7 @@ func (g *tgen) avoidOofNode(depth int) *TNode {
 	if r.Chance(1, 4) {
 		n.Style = joinStyle(n.Style, fmt.Sprintf("margin:%dpx 0 %dpx 0", r.Range(0, 2)*5, r.Range(0, 2)*5))
 	}
-	if r.Chance(1, 3) {
+	if r.Chance(2, 3) {
 		n.Kids = append(n.Kids, g.shortPara())
 	}
 	kind, style := "in-float", "float:"+vlib.Pick(r, []string{"left", "right"})+";width:"+vlib.Pick(r, []string{"40%", "60px", "40px", "50%"})
@@ -896,7 +900,7 @@ func (d *TextDoc) Index() {
 		}
 		p.Anc = append([]int{}, anc...)
 		p.Role = role
-		p.Block, p.AvoidParent, p.AvoidAnc, p.AvoidPlain = false, false, false, false
+		p.Block, p.AvoidParent, p.AvoidAnc, p.AvoidPlain, p.ContFirst, p.ContParas = false, false, false, false, -1, nil
 		byID[p.ID] = p
 		items(p.Items, append(append([]int{}, anc...), p.ID))
 	}
@@ -930,6 +934,51 @@ func (d *TextDoc) Index() {
 		case NDiv, NList:
 			for _, k := range n.Kids {
 				node(k, hasAvoid(n), parentAvoid || ancAvoid, depth+1)
+			}
+			if hasAvoid(n) {
+				var inside []int
+				var collect func(m *TNode)
+				var collectP func(q *TPara)
+				var collectI func(its []*TItem)
+				collectI = func(its []*TItem) {
+					for _, it := range its {
+						collectI(it.Kids)
+						collectP(it.Para)
+					}
+				}
+				collectP = func(q *TPara) {
+					if q != nil {
+						inside = append(inside, q.ID)
+						collectI(q.Items)
+					}
+				}
+				collect = func(m *TNode) {
+					collectP(m.Para)
+					for _, k := range m.Kids {
+						collect(k)
+					}
+					for _, c := range m.Head {
+						collectP(c)
+					}
+					for _, c := range m.Foot {
+						collectP(c)
+					}
+					for _, r := range m.Rows {
+						for _, c := range r {
+							collectP(c)
+						}
+					}
+				}
+				collect(n)
+				first := -1
+				for _, k := range n.Kids {
+					if k.Kind == NPara && first < 0 {
+						first = k.Para.ID
+					}
+					if k.Kind == NOof {
+						k.Para.ContFirst, k.Para.ContParas = first, inside
+					}
+				}
 			}
 		case NTable:
 			for _, c := range n.Head {
